@@ -22,7 +22,7 @@ fn axis(min: i64, def: i64, max: i64) -> VariationAxisRecord {
     }
 }
 
-fn eval(name: &str, a: &[i64]) -> Option<Vec<i64>> {
+fn eval(name: &str, a: &[i64]) -> Option<Vec<i128>> {
     Some(match name {
         // default_normalize(axis{min,default,max}, coord) -> Fixed raw
         "default_normalize" => {
@@ -30,7 +30,7 @@ fn eval(name: &str, a: &[i64]) -> Option<Vec<i64>> {
                 &axis(a[0], a[1], a[2]),
                 Fixed::from_raw(a[3] as i32),
             );
-            vec![r.raw_value() as i64]
+            vec![r.raw_value() as i128]
         }
         // default_normalize followed by F2Dot14::from(Fixed) -> 2.14 raw
         "normalize_f2dot14" => {
@@ -38,21 +38,21 @@ fn eval(name: &str, a: &[i64]) -> Option<Vec<i64>> {
                 &axis(a[0], a[1], a[2]),
                 Fixed::from_raw(a[3] as i32),
             );
-            vec![F2Dot14::from(r).raw_value() as i64]
+            vec![F2Dot14::from(r).raw_value() as i128]
         }
-        "f2dot14_from_fixed" => vec![F2Dot14::from(Fixed::from_raw(a[0] as i32)).raw_value() as i64],
-        "fixed_from_f2dot14" => vec![Fixed::from(F2Dot14::from_raw(a[0] as i16)).raw_value() as i64],
+        "f2dot14_from_fixed" => vec![F2Dot14::from(Fixed::from_raw(a[0] as i32)).raw_value() as i128],
+        "fixed_from_f2dot14" => vec![Fixed::from(F2Dot14::from_raw(a[0] as i16)).raw_value() as i128],
         "offset_to_index" => {
             match allsorts::tables::cmap::verif_offset_to_index(a[0] as usize, a[1] as u16, a[2] as u16, a[3] as usize) {
-                Ok(i) => vec![0, i as i64],
+                Ok(i) => vec![0, i as i128],
                 Err(_) => vec![1, 0],
             }
         }
-        "max_power_of_2" => vec![allsorts::subset::verif_max_power_of_2(a[0] as u16) as i64],
-        "long_align" => vec![allsorts::binary::long_align(a[0] as usize) as i64],
-        "word_align" => vec![allsorts::binary::word_align(a[0] as usize) as i64],
+        "max_power_of_2" => vec![allsorts::subset::verif_max_power_of_2(a[0] as u16) as i128],
+        "long_align" => vec![allsorts::binary::long_align(a[0] as usize) as i128],
+        "word_align" => vec![allsorts::binary::word_align(a[0] as usize) as i128],
         "offset_size" => match allsorts::cff::verif_offset_size(a[0] as usize) {
-            Some(n) => vec![1, n as i64],
+            Some(n) => vec![1, n as i128],
             None => vec![0, 0],
         },
         _ => return None,
